@@ -4,8 +4,8 @@
  *      CRC_Z(u ^ v) == CRC_Z(u) ^ CRC_Z(v)      for all 32-bit u, v.
  * Pure mathematics of the shift register: no table and no repository function is involved (crc32c.c is included
  * only because crc_lemmas.h names its tables), hence there is no repository mutant this unit could catch; its
- * sanity check is a mutated SPECIFICATION (see the report: a conditional xor that ignores the bit shifted out is
- * not linear and the unit fails).
+ * sanity check was a mutated SPECIFICATION: the same contract over a bit step that xors the polynomial in on the
+ * wrong polarity of the bit shifted out (affine, not linear) fails its postcondition.
  * Used (by contract replacement, at 34 instances) by the proof script of LEMMA E in lemma_e.c.
  * Back end: the query is a pure XOR-equivalence over 64 input bits; kissat decides it in ~1 s, CaDiCaL in ~5 s,
  * MiniSat needs about a minute.
@@ -19,7 +19,7 @@
  "harness": "h_lemma_lin2",
  "enforce": ["crc32c_lemma_lin2"],
  "backend": "kissat",
- "functions": ["specs/crc_lemmas.h:crc32c_lemma_lin2"],
+ "functions": [],
  "assumes": [],
  "timeout": 300,
  "native": true
@@ -35,7 +35,7 @@
  "enforce": ["crc32be_lemma_lin2"],
  "defines": ["CRC_VARIANT_BE"],
  "backend": "kissat",
- "functions": ["specs/crc_lemmas.h:crc32be_lemma_lin2"],
+ "functions": [],
  "assumes": [],
  "timeout": 300,
  "native": true
